@@ -163,3 +163,31 @@ SPECS['C20'] = dict(
                  'forged capacities are set through the public struct exactly as test/array_test.c::test_array_push_overflow does, because no legitimate history reaches a 2^63-slot container'],
     level_text='Exploration: exhaustive at 8- and 16-bit size_t on the real source, dense boundary grid and seeded pairs at 64 bits, boundary probes end to end.',
     level_note='No proof over all 2^128 64-bit operand pairs is claimed. If the internal helper names disappear the check falls back to the end-to-end campaigns only and says so in the evidence notes.')
+
+NEST_LIMITS = (1, 2, 3, 8, 64, 2048)
+def nest_jobs(tier, seed):
+    jobs = []
+    for n in NEST_LIMITS:
+        jobs.append(Job('drv_nest', 'L%d' % n, [], shards=2 if n < 2048 else 4, timeout=3600, label='L%d' % n))
+        jobs.append(Job('drv_nest', 'P%d' % n, [], shards=2 if n < 2048 else 4, timeout=3600, label='P%d' % n))
+    return jobs
+
+SPECS['C19'] = dict(
+    jobs=nest_jobs, level='exploration', technique='configuration sweep: library rebuilt for each limit L; generated nests at L-1..L+2 and 4L compared with the reference classifier parameterised by L; pipeline on a guard-paged bounded stack',
+    rule='For each L in {1,2,3,8,64,2048} the library is rebuilt with -DCBOR_MAX_STACK_SIZE=L (ASan+DEBUG flavour for the verdict oracle, -O0 flavour for the stack bound). Inputs: nests from 10 opener kinds (tags, definite and indefinite arrays, maps in key and value position, wide heads, second array slot), homogeneous and seeded mixes, at depths L-1, L, L+1, L+2, 4L (and 1, L/2), innermost an integer / chunked byte or text string (counts as a level) / empty array / empty indefinite map; truncations of them; sibling-heavy inputs whose nesting stays within L; for L<=8 every E2/E2p encoding. Oracle: accepted iff the reference with limit L accepts, tree equal and read exact; when the limit decides, NULL with MEMERROR positioned just past the head that would open level L+1; in the -O0 flavour load, describe, size, serialize, copy and release run on a thread with 256 KiB + 4 KiB*L of stack whose guard page must never be touched. Non-trivial = deepest nesting in {L-1..L+1} or the limit changes the verdict; distinct by input.',
+    assumptions=[COMMON_ASSUME[1], COMMON_ASSUME[2], 'the stack allowance (256 KiB + 4 KiB per level) is about proportionality, not tightness: it is roughly ten times the per-level frame chain observed at -O0',
+                 'limits other than the six listed are not built'],
+    level_text='Exploration over six build configurations; per configuration the boundary depths are covered for every opener kind.',
+    level_note='A per-level stack use between the real one and 4 KiB is not distinguished; only the six listed limits are exercised.')
+
+def ro_jobs(tier, seed):
+    return [Job('drv_ro', 'plain-O0', [], shards=NCPU, timeout=3600, label='mprotect -O0'),
+            Job('drv_ro', 'plain-O2', [], shards=NCPU, timeout=3600, label='mprotect -O2'),
+            Job('drv_ro', 'tsan', [], shards=NCPU, timeout=3600, label='tsan readers')]
+
+SPECS['C18'] = dict(
+    jobs=ro_jobs, level='exploration', technique='generated trees placed in a write-protected arena (mprotect) while every read-only operation runs on every node; concurrent readers under ThreadSanitizer',
+    rule='Trees: cbor_load of every E2 (<=2 nodes quick / <=3 thorough) and E2p encoding; construction programs (all 1- and 2-byte programs, seeded longer ones) with tags, indefinite items, shared nodes, partially filled containers, chunked strings. Deterministic part, at -O0 and -O2 without sanitizers: the tree is built in arena 0 of an mmap arena allocator, arena 0 is mprotect(PROT_READ)ed, allocations are redirected to arena 1, then cbor_serialized_size (on every node), cbor_serialize (exact and too-small buffer), cbor_serialize_alloc, the typed cbor_serialize_* functions and every predicate / getter that hands out no reference (typeof, isa_*, is_*, refcount, widths, values, lengths, sizes, allocated, handles, chunk counts, codepoint count on definite and indefinite strings, ctrl value) run on every node; a SIGSEGV with an address inside arena 0 is a store into the tree, and the arena image is compared afterwards. Concurrent part: four threads run the same set three times on one shared tree under TSan. cbor_array_get, cbor_tag_item, cbor_copy and cbor_describe hand out references or are not named by the property and are not run. Non-trivial = tree with a tag, an indefinite item or a container; distinct by tree.',
+    assumptions=[COMMON_ASSUME[2], 'mprotect faults on every store instruction into the arena, including transient ones that restore the old value', 'TSan (history_size=7) reports two unsynchronised writes / write+read to the same location by different reader threads'],
+    level_text='Exploration: the write-protection oracle is deterministic per (tree, operation); trees are enumerated / sampled.',
+    level_note='Operations are judged at -O0 and -O2 only; a store the optimiser removes at -O2 is still seen at -O0.')
